@@ -8,7 +8,7 @@ CHECKS = [c["property_id"] for c in json.load(open("/verif/MANIFEST.json"))["che
 OUT = "/var/tmp/h3-matrix"
 def sh(cmd, **kw):
     return subprocess.run(cmd, shell=True, capture_output=True, text=True, **kw)
-def run_on(patch, checks):
+def run_on(patch, checks, aimed=None):
     assert sh("git -C /repo status --porcelain").stdout.strip() == "", "/repo not clean"
     r = sh(f"git -C /repo apply {patch}")
     if r.returncode != 0:
@@ -22,7 +22,10 @@ def run_on(patch, checks):
         shutil.copy("/verif/known_findings.json", OUT + "/known_findings.json")
         for c in checks:
             env = dict(os.environ, VERIF_DIR=OUT)
-            p = subprocess.run(["/verif/sim/target/release/h3sim", c, "--no-evidence", "--report-classes", "3", "--shrink-budget", "200"], capture_output=True, text=True, env=env)
+            cmd = ["/verif/sim/target/release/h3sim", c, "--no-evidence", "--report-classes", "3", "--shrink-budget", "200"]
+            if aimed is not None and c != aimed:
+                cmd += ["--max-wall", "5"]  # checks the change was not aimed at: at most 5 s of runs each
+            p = subprocess.run(cmd, capture_output=True, text=True, env=env)
             classes = re.findall(r"^  class: (.*?)  \(", p.stdout, re.M)
             extra = re.findall(r"unreported class: (.*?) \(", p.stdout)
             if p.returncode == 1:
@@ -46,11 +49,12 @@ def main():
         items.append((n, p, None))
     rows = []
     for n, patch, meta in items:
-        res = run_on(patch, CHECKS)
+        aimed = json.load(open(meta))["breaks_property"] if meta else None
+        res = run_on(patch, CHECKS, aimed)
         print(n, json.dumps(res)[:400], flush=True)
         rows.append((n, res))
         if meta:
-            m = json.load(open(meta)); m["detected_by"] = res; m["detection_run"] = {"tier": "quick", "seed": "default", "checks_run": CHECKS}
+            m = json.load(open(meta)); m["detected_by"] = res; m["detection_run"] = {"tier": "quick", "seed": "default", "checks_run": CHECKS, "note": "the check of the property the change was aimed at ran its full quick tier; the other checks ran at most 5 s each"}
             json.dump(m, open(meta, "w"), indent=1)
     # rebuild against the clean tree
     sh("cd /verif/sim && cargo build --release --offline")
@@ -64,7 +68,7 @@ def main():
         if "_error" in res: old[n] = res["_error"]
         else: old[n] = "; ".join(f"**{c}**: " + ", ".join(v)[:300] for c, v in sorted(res.items())) or "not detected by any check (quick tier)"
     with open(path, "w") as f:
-        f.write("# Which checks catch which seeded changes (quick tier, default seed)\n\n| change | detected by (violation classes) |\n|---|---|\n")
+        f.write("# Which checks catch which seeded changes (quick tier, default seed; for seeded changes the checks the change was not aimed at ran at most 5 s each, for sensitivity patches every check ran its full quick tier)\n\n| change | detected by (violation classes) |\n|---|---|\n")
         for n in sorted(old): f.write(f"| {n} | {old[n]} |\n")
 if __name__ == "__main__":
     main()
